@@ -14,6 +14,11 @@ deriving Repr
 /-- `lzma_delta_coder_init`: `pos = 0`, `memzero(history)`. -/
 def State.init (dist : Nat) : State := ⟨dist, 0, List.replicate 256 0⟩
 
+/-- `lzma_delta_coder_init` on an already allocated coder (handle reuse: the next Block, a re-initialised `lzma_stream`):
+    `distance = opt->dist; pos = 0; memzero(history, LZMA_DELTA_DIST_MAX)` — nothing of the previous use survives. -/
+def State.reinit (_prev : State) (dist : Nat) : State :=
+  { distance := dist, pos := 0, history := List.replicate 256 0 }
+
 /-- `lzma_delta_coder_memusage(options) != UINT64_MAX` for a non-NULL options of type BYTE -/
 def distValid (dist : Nat) : Bool := decide (1 ≤ dist) && decide (dist ≤ 256)
 
